@@ -5861,8 +5861,13 @@ class CodegenCtx:
         elif literal.result_type() == OutputStorageType.BOOL:
             return "true" if literal.get_literal_result() else "false"
         elif literal.result_type() == OutputStorageType.INT:
+            value = literal.get_literal_result()
+            if not -(1 << 63) <= value < (1 << 64):
+                raise IllegalIntExpr(f"Constant {value} cannot be written in C (it is beyond every 64-bit integer type)", literal)
+            if value == -(1 << 63):
+                return "(-9223372036854775807 - 1)" # (the digits alone are not a valid signed constant)
             # (a constant beyond the signed 64-bit range is only valid C with an unsigned suffix)
-            return str(literal.get_literal_result()) + ("u" if literal.get_literal_result() >= (1 << 63) else "")
+            return str(value) + ("u" if value >= (1 << 63) else "")
         elif literal.result_type() == OutputStorageType.STR:
             return '"{}"'.format(self._escape_string(literal.get_literal_result()))
         else:
